@@ -208,3 +208,16 @@ def replay(path):
     reproduced = out.returncode == 1 and rec["fingerprint"].split("/")[0] in out.stdout + rec["fingerprint"]
     print("REPRODUCED" if out.returncode == 1 else "not reproduced on this tree")
     return 1 if out.returncode == 1 else 0
+
+
+def systematic(max_states=4, **kw):
+    """the systematic family: ALL ordered trees with <= max_states states over every region kind (headed) and over
+    composite / resumable / orthogonal (headed and headless)"""
+    seen = set()
+    out = []
+    for dsl in st.all_trees(max_states, "CRSUNO", headless=False) + st.all_trees(max_states, "CRO", headless=True):
+        if dsl in seen:
+            continue
+        seen.add(dsl)
+        out.append(Prog("sys%d_%03d" % (max_states, len(out)), dsl, **kw))
+    return out
